@@ -9,6 +9,8 @@ import CpModel.AuthPrims
     basic  CHARSETNAME:TEXT CODEC REALM:TEXT STORE:PAIRS HDR:OPT NFC:PAIRS
     digest CHARSETNAME:TEXT CODEC REALM:TEXT KEY:TEXT plain|ha1|htdigest STORE:PAIRS|TRIPLES METHOD:TEXT NOW:int HDR:OPT
         → `grant TEXT` | `401 TEXT` | `400` | `500 ValueError|IndexError|TypeError`
+    seen RAW:TEXT DEC:`E`|TEXT   (Request.process_headers on one value; DEC = what the RFC 2047 decoder returns / raises)
+        → `ok TEXT` | `400`
   primitive cross-checks:
     md5 HEX → HEX      b64 TEXT → `ok HEX` | `err`      utf8 HEX → `ok TEXT` | `err`     int TEXT → `N` | int
     strip|upper|lower TEXT → TEXT      parse TEXT → `ok PAIRS` | `ValueError` | `IndexError`
@@ -74,6 +76,13 @@ def step (line : String) : String :=
       let P : Prims := { H := md5Hex, b64decode := b64decode, decode := dec, nfc := id }
       showOutcome (digestAuth P { realm := realm, key := key, store := st, acceptCharset := cn } method now hdr)
     | _, _, _, _, _, _, _, _ => "bad-op"
+  | ["seen", raw, dec] =>
+    match Proto.untext? raw, (if dec == "E" then some none else (Proto.untext? dec).map some) with
+    | some raw, some dec =>
+      match processHeader (fun _ => dec) raw with
+      | some h => "ok " ++ Proto.text h
+      | none => "400"
+    | _, _ => "bad-op"
   | ["md5", h] =>
     match Proto.unhex? h with
     | some b => Proto.hex (md5 b)
